@@ -651,7 +651,8 @@ func (fr *Frame) applyContract(fc *FuncContract, key string, ci ssa.CallInstruct
 		for root.parent != nil {
 			root = root.parent
 		}
-		if root.fc != nil && root.fc.Decreases != nil && root.old != nil {
+		// only between functions of one recursion group: the callee can call the function under verification back
+		if root.fc != nil && root.fc.Decreases != nil && root.old != nil && reachesFn(w.P.Funcs[key], root.fn, map[*ssa.Function]bool{}) {
 			env.where = fc.Decreases.Where()
 			callee := fr.safeTrInt(env, fc.Decreases)
 			env0 := &Env{w: w, vars: map[string]TV{}, state: root.old, old: root.old, scope: root.fc.Scope, where: root.fc.Decreases.Where()}
@@ -1392,4 +1393,32 @@ func (fr *Frame) safeTrInt(env *Env, c *Clause) (t *Term) {
 		}
 	}()
 	return env.tr(c.Expr).T
+}
+
+// reachesFn: can a call of from lead (through static calls and function literals) to a call of target?
+func reachesFn(from, target *ssa.Function, seen map[*ssa.Function]bool) bool {
+	if from == nil || seen[from] {
+		return false
+	}
+	seen[from] = true
+	fs := []*ssa.Function{from}
+	fs = append(fs, from.AnonFuncs...)
+	for _, g := range fs {
+		for _, b := range g.Blocks {
+			for _, ins := range b.Instrs {
+				ci, ok := ins.(ssa.CallInstruction)
+				if !ok {
+					continue
+				}
+				sc := ci.Common().StaticCallee()
+				if sc == nil {
+					continue
+				}
+				if sc == target || reachesFn(sc, target, seen) {
+					return true
+				}
+			}
+		}
+	}
+	return false
 }
